@@ -6,11 +6,13 @@ import (
 	"verif/checks/c03"
 	"verif/checks/c06"
 	"verif/checks/c07"
+	"verif/checks/c08"
 	"verif/checks/c11"
 	"verif/checks/c17"
 )
 
 func init() {
+	register("C08", "exploration", c08.Run)
 	register("C17", "exploration", c17.Run)
 	register("C03", "model_checking", c03.Run)
 	register("C06", "model_checking", c06.Run)
